@@ -175,6 +175,10 @@ class ClientAuthenticator:
                 self.sendAuthMessage(
                     b'ERROR ' + str(e).encode('unicode-escape'))
 
+        else:
+            # the mechanism in use has no data exchange: give it up
+            self.sendAuthMessage(b'CANCEL')
+
     def _auth_ERROR(self, line):
         if self.negotiatingUnixFD:
             # the server accepted us (OK) but cannot pass descriptors
